@@ -11,6 +11,8 @@ CONSTANTS
   TimerOn = TRUE
   WithFail = TRUE
   MaxOps = 3
+  Muts = {"same"}
   ResetOnError = TRUE
   AddBeforeChecks = TRUE
   RemoveWhole = TRUE
+  MeasureOnArrival = TRUE
